@@ -34,6 +34,18 @@ CLAIMS = {
               "accuracy of powf/cbrt/atan2 or a tolerance over the gamut; Okhsl/Okhsv/HSLuv bodies are covered by C15's constant checks."),
         design_ref="DESIGN.md §3 C02",
     ),
+    "C03": dict(
+        technique="symbolic evaluation of bounds/clamp bodies with min/max as case splits; exact interval reasoning discharges the contract laws",
+        category="proof",
+        text=("For every colour type (27 today) and all component values at once: the macro-expanded bodies of is_within_bounds, clamp and "
+              "clamp_assign are evaluated symbolically and the contract itself is discharged on them by exact interval reasoning — "
+              "is_within_bounds(clamp(c)) is true for every c, clamp(c) = c whenever is_within_bounds(c), clamp is idempotent, clamp_assign "
+              "leaves *self equal to clamp(self), and the thresholds are the type's public min_*/max_* accessors; the coupled HWB forms are "
+              "compared with the documented renormalisation; FromColor must be exactly clamp∘from_color_unclamped, TryFromColor must test the "
+              "unclamped value and return that same value in Ok or inside OutOfBounds; Alpha clamps colour and alpha separately. "
+              "Does not decide rounding of the HWB division (w/s + b/s may exceed 1 by an ulp)."),
+        design_ref="DESIGN.md §3 C03",
+    ),
     "C08": dict(
         technique="symbolic normal form of resolved HIR vs W3C formulas (exact rational functions); dispatch-shape lint",
         category="proof",
